@@ -44,7 +44,9 @@ deriving DecidableEq, Repr
 
 /-- an app. name 0‥2 = probe apps, 3 = the HTTP app. `tag` = what it answers on its listeners.
     fault: 0 none · 1 unknown app module · 2 undecodable app JSON · 3 own Provision fails (after
-    its guest modules were loaded) · 4 own Validate fails · 5 Start fails before binding. -/
+    its guest modules were loaded) · 4 own Validate fails · 5 Start fails before binding ·
+    6 (HTTP app only) Start fails AFTER every listener is bound and served: certificate management
+    (automaticHTTPSPhase2) cannot be started. -/
 structure App where
   name : Nat
   tag : Nat
@@ -379,8 +381,10 @@ def closeApp (cid name : Nat) (s : State) : State :=
     bound so far. (`startAppOld` below is the HTTP app's Start before that fix.) -/
 def startApp (cid : Nat) (blocked : List Nat) (a : App) (s : State) : State × Bool :=
   if a.isHttp then
+    -- start(): bind and serve every listener, then automaticHTTPSPhase2 (certificate management;
+    -- fault 6 = it fails, with every listener already up); Start aborts on ANY error of start()
     match bindAll cid a blocked a.listen s with
-    | (s', true) => (s', true)
+    | (s', true) => if a.fault = 6 then (closeApp cid a.name s', false) else (s', true)
     | (s', false) => (closeApp cid a.name s', false)
   else if a.fault = 5 then (evA s [.start cid a.name, .startFail cid a.name], false)
   else
